@@ -61,7 +61,7 @@ def run_case(case) -> Result:
             rec["ctx_engine"] = m.get("ctx_engine")
             rec["engine_id"] = m["engine_id"]
         seen.append(rec)
-        return agent.handle(bytes(data), timeout=timeout, retries=retries)
+        return agent.handle_or_timeout(bytes(data), timeout=timeout, retries=retries)
 
     init = case["init"]
     model = [dict(timeout=6, retries=10, creds=init, ctx=("", ""))]
